@@ -75,6 +75,7 @@ constexpr unsigned char kCanary = 0xA5;
 struct Meta
 {
   std::string fmt;
+  std::string fmt_rt; // fmt + separator "{}" separator "{}" separator "{}" (what LOG_RUNTIME_METADATA builds)
   alignas(quill::MacroMetadata) unsigned char md[sizeof(quill::MacroMetadata)];
 };
 constexpr size_t kMetaRing = 65536;
@@ -148,6 +149,7 @@ struct Pending : Prepared
   std::string shape;
   std::string expected; // full message, sanitised when the statement is string-related
   bool sr{false};
+  bool want_runtime_md{false};
   bool has_unordered{false};
   bool logged{false};
   size_t nargs{0};
@@ -900,6 +902,7 @@ Prepared* Ctx::plan(SlotInfo const* info, size_t n)
     p.dynamic_level = true;
     p.level = lv[c.pick(sizeof lv / sizeof *lv)];
     r.label("dynamic_log_level");
+    p.want_runtime_md = c.pick(2) == 1;
   }
   return &p;
 }
@@ -932,9 +935,25 @@ bool Ctx::prepare(Prepared* pp, SlotInfo const* info, size_t n, fmtquill::format
     }
     raw = fmtquill::vformat(m.fmt, args);
   }
-  auto* md = new (static_cast<void*>(m.md)) quill::MacroMetadata(
-    "fmtcat.cpp:1", "run_case", m.fmt.c_str(), nullptr, p.dynamic_level ? quill::LogLevel::Dynamic : quill::LogLevel::Info,
-    quill::MacroMetadata::Event::Log);
+  // LOG_RUNTIME_METADATA form: the message is split from file / line / function at the 3-byte separator, so a message that
+  // contains the separator itself is outside this variant (that is finding F5, which belongs to C12 / C19)
+  static std::string const kSep{QUILL_MAGIC_SEPARATOR};
+  // (and the macro appends automatic "{}" fields, so a format with manual argument indexes cannot be used with it)
+  p.runtime_md = p.want_runtime_md && !p.manual && raw.find(kSep) == std::string::npos && m.fmt.find(kSep) == std::string::npos;
+  quill::MacroMetadata* md;
+  if (p.runtime_md)
+  {
+    m.fmt_rt = m.fmt + kSep + "{}" + kSep + "{}" + kSep + "{}";
+    md = new (static_cast<void*>(m.md)) quill::MacroMetadata("[placeholder]", "[placeholder]", m.fmt_rt.c_str(), nullptr, quill::LogLevel::Dynamic,
+                                                             quill::MacroMetadata::Event::LogWithRuntimeMetadata);
+    r.label("runtime_metadata_statement");
+  }
+  else
+  {
+    md = new (static_cast<void*>(m.md)) quill::MacroMetadata(
+      "fmtcat.cpp:1", "run_case", m.fmt.c_str(), nullptr, p.dynamic_level ? quill::LogLevel::Dynamic : quill::LogLevel::Info,
+      quill::MacroMetadata::Event::Log);
+  }
   p.md = md;
   if (md->has_named_args())
   {
@@ -945,6 +964,8 @@ bool Ctx::prepare(Prepared* pp, SlotInfo const* info, size_t n, fmtquill::format
 
   bool any_varlen = false;
   int max_depth = 0;
+  // a runtime-metadata statement is sanitised after the split whatever its argument types are (and carries two C strings)
+  if (p.runtime_md) p.sr = true;
   for (size_t i = 0; i < n; ++i)
   {
     p.sr = p.sr || info[i].string_related;
